@@ -75,6 +75,12 @@ type Snapshot struct {
 	Reader   string // what the reader goroutine is parked on
 }
 
+// RemovedRec: at Step the world removed a directory entry of inode Ino.
+type RemovedRec struct {
+	Step int
+	Ino  uint64
+}
+
 type WatcherRec struct {
 	Idx         int
 	W           *fsnotify.Watcher
@@ -107,6 +113,7 @@ type Exec struct {
 	W                   []*WatcherRec
 	H                   []*APICall
 	fds                 map[int]int // fd slots of the world
+	Removed             []RemovedRec // inodes whose directory entry the world removed (unlink, rmdir, overwriting rename), with the step
 	deepPrefix          string      // path (relative to the working directory) of the directory made by OpDeepMk
 	deepFD              int         // O_PATH descriptor on it: the harness reaches what is below through /proc/self/fd/N/...
 	BodyEnd             int
